@@ -328,9 +328,14 @@ impl std::fmt::Debug for DbgArg {
     }
 }
 
-#[unimock(api = DbgTMock)]
+#[unimock(api = DbgTMock, unmock_with = [real_d0])]
 pub trait DbgT {
     fn d0(&self, x: DbgArg) -> u64;
+}
+
+/// (falling through to this function must not render the argument: its `Debug` may panic)
+pub fn real_d0(u: &Unimock, x: DbgArg) -> u64 {
+    run_prog(ProgKind::Real(M::D0), x.0, 0, &mut ref_port(u))
 }
 
 // ---------------------------------------------------------------------------------------------
@@ -433,6 +438,7 @@ pub fn direct_real(u: &Unimock, m: M, x: u8, y: u8) -> u64 {
         M::S0 => real_s0(u, x),
         M::S2 => real_s2(u, x),
         M::Z0 => real_z0(u),
+        M::D0 => real_d0(u, DbgArg(x)),
         M::Af => crate::exec::block_on(real_af(u, x)),
         M::At => crate::exec::block_on(real_at(u, x)),
         other => panic!("{other:?} has no real function taking &Unimock"),
